@@ -487,10 +487,10 @@ fn main() {
             let mut events = 0;
             for s in 0..shards {
                 let mut w = TraceWriter::create(&format!("{}/shard_{}.ndjson", out, s));
-                w.write(&json!({"ev": "fnhdr", "base": s, "stride": shards, "maxlen": 0, "alpha": [0], "cfg": false, "explicit": true}));
+                w.write(&json!({"ev": "fnhdr", "base": s, "stride": shards, "maxlen": 0, "alpha": [0], "cfg": true, "explicit": true}));
                 let mut k = s;
                 while k < strings.len() {
-                    w.write(&muxide_verif_harness::fnt::fn_event(k as u64, &strings[k], false));
+                    w.write(&muxide_verif_harness::fnt::fn_event(k as u64, &strings[k], true));
                     k += shards;
                 }
                 events += w.finish();
